@@ -791,9 +791,10 @@ func TestVerifC12m(t *testing.T) {
 			{"small-int", 2, 0, 2}, {"small-float", 2, 0, 2}, {"tiny-int", 3, 0, 2}, {"tiny-float", 3, 0, 2},
 			{"tiny-int", 2, 0, 3}, {"tiny-float", 2, 0, 3},
 			{"small-int", 3, 3, 0}, {"small-float", 3, 3, 0},
+			{"tiny3-int", 3, 0, 3},
 			{"full-int", 3, 1, 0},
 			{"small-int", 4, 1, 0},
-			{"tiny3-int", 3, 0, 3}, {"tiny-int", 4, 0, 2}, {"small10-int", 3, 0, 2},
+			{"tiny-int", 4, 0, 2},
 		}
 	}
 	var desc []string
